@@ -475,5 +475,9 @@ func (g *Gen) Program() []N {
 		g.funcs = append(g.funcs, fnInfo{name, len(fn["params"].([][]int))})
 	}
 	body = append(body, g.block(g.MaxDepth, 2+g.pick(g.MaxTop-1))...)
+	// one or two targeted scenarios, placed after the random part
+	for i, n := 0, g.pick(3); i < n; i++ {
+		body = append(body, g.scenario()...)
+	}
 	return body
 }
